@@ -1,11 +1,14 @@
 """C12  Structured multi-line fields round-trip as records and can always be dumped.
 
-B-12 bounded stand-in (the get_as_string / _fixed_field_lengths contracts of DESIGN §5 C12 are not
-generated yet): for every class with structured fields (Dsc, Changes, BuildInfo, Release in both
-size_field_behaviors, PdiffIndex) x subsets of its structured fields x record lists of 1-3 records
-over whitespace-free tokens: the dump must be exactly the documented text (size column right-aligned
-to 16 / to the longest size present), and re-parsing must give the same records (documented
-sub-field names, same order).  Dumping must never fail because other structured fields are absent.
+Deductive part (P-12a / P-12b below): _multivalued.get_as_string, Release / PdiffIndex._fixed_field_lengths and
+_get_size_field_length from their real ASTs against a recursive specification of the field text and of the width table.
+
+B-12 bounded stand-in for what is not under contract (the line -> record conversion of _multivalued.__init__, the class tables,
+the composition with the Deb822 reader / writer): for every class with structured fields (Dsc, Changes, BuildInfo, Release in
+both size_field_behaviors, PdiffIndex) x subsets of its structured fields x record lists of 1-3 records over whitespace-free
+tokens: the dump must be exactly the documented text (size column right-aligned to 16 / to the longest size present), and
+re-parsing must give the same records (documented sub-field names, same order).  Dumping must never fail because other
+structured fields are absent.
 """
 import itertools
 import random
@@ -17,6 +20,270 @@ MOD = "debian.deb822"
 from vf import tricky
 TOK = ["aa", "b3f", "x-y_z", "é", "0", "main/a.deb", "12:30"] + tricky.WORDS
 SIZES = ["1", "22", "00042", "977", "12k", "1234567890123456789"]
+
+
+# ------------------------------------------------------------------------------------------------
+# P-12a  _multivalued.get_as_string from its real AST: stored value -> field text.  For a structured field the text is
+#   [newline, unless the value is a single record] + for every record, in order: for every sub-field of the class's table, in
+#   table order: " " + the component (left-padded with blanks to the width _fixed_field_lengths gives for that sub-field, if it
+#   gives one); newline after every record - with trailing newlines stripped; ValueError iff a component contains a newline.
+# P-12b  Release / PdiffIndex._get_size_field_length and _fixed_field_lengths from their real ASTs: the width table has an entry
+#   exactly for the structured fields that are present (PdiffIndex: and are not single records), each entry is {"size": w} with
+#   w == 16 (Release, apt-ftparchive) or the maximum of the lengths of the size components of the field's records.
+# A stored value is an object the code only reads: hasattr(v, 'keys') tells a single record (is_record) from a list of records
+# (items_of); item[x] of a record is cell(item, x).  Components are str (str(item[x]) is item[x]).
+from vf.pyvc.speclib import SpecLib, Unsupported
+from vf.pyvc.world import World, Contract
+from vf.pyvc.interp import LoopSpec
+from vf.pyvc.values import VObj, VBox, VSeq, VBool, VInt, VRef, VFunc, NONE, fresh, fresh_name, lift
+from vf.pyvc.driver import verify_contracts
+
+VAL = ("ref", "Val")
+TABLE = ("dict", "str", ("list", "str"))
+ROW = ("dict", "str", "int")
+LENGTHS = ("dict", "str", ROW)
+
+
+def cell(item, x):
+    return ""        # opaque: str(item[x]), the component x of a record
+
+
+def is_record(v):
+    return False     # opaque: hasattr(v, 'keys') - the stored value is one record, not a list of records
+
+
+def items_of(v):
+    return []        # opaque: the records of a stored list of records, in order
+
+
+def stored(self_, key):
+    return None      # opaque: the value stored under key (self[key])
+
+
+def has_field(self_, key):
+    return False     # opaque: key in self
+
+
+def size_len(beh, keyl):
+    # the width of the size column of field keyl: 16 for a Release file in apt-ftparchive style, else the longest size present
+    if beh == "apt-ftparchive":
+        return 16
+    return max(widths(items_of(stored(0, keyl))))
+
+
+def comp_plain(item, x, keyl, beh):
+    return cell(item, x)
+
+
+def comp_sized(item, x, keyl, beh):
+    # the classes with a width table: it has an entry for keyl unless the value is a single record of a pdiff index (single_exempt)
+    if x == "size" and not (single_exempt(0) and is_record(stored(0, keyl))):
+        return (size_len(beh, keyl) - len(cell(item, x))) * " " + cell(item, x)
+    return cell(item, x)
+
+
+def rec_line(item, order, keyl, beh):
+    if len(order) == 0:
+        return ""
+    return " " + comp(item, order[0], keyl, beh) + rec_line(item, order[1:], keyl, beh)
+
+
+def rec_lines(items, order, keyl, beh):
+    if len(items) == 0:
+        return ""
+    return rec_line(items[0], order, keyl, beh) + "\n" + rec_lines(items[1:], order, keyl, beh)
+
+
+def line_has_nl(item, order, keyl, beh):
+    if len(order) == 0:
+        return False
+    return ("\n" in comp(item, order[0], keyl, beh)) or line_has_nl(item, order[1:], keyl, beh)
+
+
+def any_has_nl(items, order, keyl, beh):
+    if len(items) == 0:
+        return False
+    return line_has_nl(items[0], order, keyl, beh) or any_has_nl(items[1:], order, keyl, beh)
+
+
+def records(v):
+    if is_record(v):
+        return [v]
+    return items_of(v)
+
+
+def mv_text(v, order, keyl, beh):
+    if is_record(v):
+        return rec_lines([v], order, keyl, beh)
+    return "\n" + rec_lines(items_of(v), order, keyl, beh)
+
+
+def width_of(item):
+    return len(cell(item, "size"))
+
+
+def widths(items):
+    if len(items) == 0:
+        return []
+    return [width_of(items[0])] + widths(items[1:])
+
+
+class StoredAbs(Contract):
+    """self[key]: the stored value"""
+    target = MOD + ":Deb822Dict.__getitem__"
+    modular = True
+    returns = VAL
+    ensures = ("result == stored(0, key)",)
+
+
+class ContainsAbs(Contract):
+    target = MOD + ":Deb822Dict.__contains__"
+    modular = True
+    returns = "bool"
+    ensures = ("result == has_field(0, key)",)
+
+
+class SizeLenRelease(Contract):
+    target = MOD + ":Release._get_size_field_length"
+    modular = True
+    returns = "int"
+    ensures = ("self.size_field_behavior == 'apt-ftparchive' or self.size_field_behavior == 'dak'",
+               "result == size_len(self.size_field_behavior, key)")
+    raises = {"ValueError": ("self.size_field_behavior == 'dak' and len(items_of(stored(0, key))) == 0 or "
+                             "(self.size_field_behavior != 'apt-ftparchive' and self.size_field_behavior != 'dak')",)}
+    raises_modifies = {"ValueError": ()}
+    comprehensions = {0: ("widths", "width_of")}
+
+    def setup(self, ex):
+        me = VObj("Release", {"_Release__size_field_behavior": fresh("str", "behaviour")}, "self")
+        return {"self": me, "key": fresh("str", "key")}
+
+
+class SizeLenPdiff(Contract):
+    target = MOD + ":PdiffIndex._get_size_field_length"
+    modular = True
+    returns = "int"
+    ensures = ("result == size_len('', key)",)
+    raises = {"ValueError": ("len(items_of(stored(0, key))) == 0",)}
+    raises_modifies = {"ValueError": ()}
+    comprehensions = {0: ("widths", "width_of")}
+
+    def setup(self, ex):
+        return {"self": VObj("PdiffIndex", {}, "self"), "key": fresh("str", "key")}
+
+
+class FixedLengths(Contract):
+    """pointwise in the ghost key keyl (an arbitrary key, so: for every key): the table has an entry for keyl exactly when keyl is
+    a structured field of the class and present (PdiffIndex: and not a single record); the entry is {"size": width of the field}"""
+    modular = True
+    ghosts = ("keyl",)
+    returns = LENGTHS
+    locals_order = ['self', 'fixed_field_lengths', 'key', 'length']
+    raises = {"ValueError": ()}        # an empty record list / an illegal size_field_behavior: outside the property's domain
+    raises_modifies = {"ValueError": ()}
+
+    def __init__(self, cls):
+        self.cls = cls
+        self.target = MOD + ":%s._fixed_field_lengths" % cls
+        present = "keyl in self._multivalued_fields and has_field(0, keyl)"
+        if cls == "PdiffIndex":
+            present += " and not is_record(stored(0, keyl))"
+        beh = "self.size_field_behavior" if cls == "Release" else "''"
+        self.ensures = ("(keyl in result) == (%s)" % present,
+                        "implies(keyl in result, result[keyl] == {'size': size_len(%s, keyl)})" % beh)
+        seen = present.replace("keyl in self._multivalued_fields", "keyl in self._multivalued_fields and __pos0(keyl) < ki")
+        self.loops = {0: LoopSpec(invariants=("0 <= ki and ki <= len(__seq0)",
+                                              "(keyl in fixed_field_lengths) == (%s)" % seen,
+                                              "implies(keyl in fixed_field_lengths, fixed_field_lengths[keyl] == {'size': size_len(%s, keyl)})" % beh),
+                                  index="ki", var_types={"key": "str", "length": "int", "fixed_field_lengths": LENGTHS})}
+
+    def setup(self, ex):
+        fields = {"_multivalued_fields": fresh(TABLE, "table")}
+        if self.cls == "Release":
+            fields["_Release__size_field_behavior"] = fresh("str", "behaviour")
+        return {"self": VObj(self.cls, fields, "self"), "keyl": fresh("str", "keyl")}
+
+
+class MVGetAsString(Contract):
+    locals_order = ['self', 'key', 'keyl', 'fd', 'array', 'order', 'field_lengths', 'item', 'x', 'raw_value', 'length', 'value']
+    modular = False
+    cover_loop_paths = True
+    target = MOD + ":_multivalued.get_as_string"
+    requires = ("key.lower() in self._multivalued_fields",
+                # the paragraph is a case-insensitive mapping (C09) and the field is present
+                "stored(0, key) == stored(0, key.lower())", "has_field(0, key.lower())")
+
+    def __init__(self, cls):
+        self.cls = cls
+        B = "self.size_field_behavior" if cls == "Release" else "''"
+        self.raises = {"ValueError": ("any_has_nl(records(stored(0, key)), self._multivalued_fields[key.lower()], key.lower(), %s)" % B,)}
+        self.ensures = ("not any_has_nl(records(stored(0, key)), self._multivalued_fields[key.lower()], key.lower(), %s)" % B,
+                        "result == mv_text(stored(0, key), self._multivalued_fields[key.lower()], key.lower(), %s).rstrip('\\n')" % B)
+        self.loops = {
+            0: LoopSpec(invariants=("0 <= ai and ai <= len(__seq0)", "__seq0 == records(stored(0, key))",
+                                    "any_has_nl(__seq0[ai:], order, keyl, %s) == any_has_nl(__seq0, order, keyl, %s)" % (B, B),
+                                    "fd.buffer + rec_lines(__seq0[ai:], order, keyl, %s) == mv_text(stored(0, key), order, keyl, %s)" % (B, B)),
+                        index="ai", modifies=("fd.buffer",),
+                        var_types={"item": VAL, "x": "str", "raw_value": "str", "length": "int", "value": "str"}),
+            1: LoopSpec(invariants=("0 <= xi and xi <= len(order)",
+                                    "line_has_nl(item, order[xi:], keyl, %s) == line_has_nl(item, order, keyl, %s)" % (B, B),
+                                    "fd.buffer + rec_line(item, order[xi:], keyl, %s) == old_buffer + rec_line(item, order, keyl, %s)" % (B, B)),
+                        index="xi", modifies=("fd.buffer",), entry={"old_buffer": "fd.buffer"},
+                        exit=("fd.buffer == old_buffer + rec_line(item, order, keyl, %s)" % B,),
+                        var_types={"x": "str", "raw_value": "str", "length": "int", "value": "str"}),
+        }
+        if cls != "Dsc":
+            # the width table may fail (empty record list, illegal size_field_behavior): when ValueError is raised is then not
+            # pinned down; the normal exit still is
+            self.raises = {"ValueError": ()}
+
+    def setup(self, ex):
+        fields = {"_multivalued_fields": fresh(TABLE, "table")}
+        if self.cls == "Release":
+            fields["_Release__size_field_behavior"] = fresh("str", "behaviour")
+        return {"self": VObj(self.cls, fields, "self"), "key": fresh("str", "key")}
+
+
+def build_world_mv(cls):
+    sl = SpecLib()
+    w = World(sl)
+    w.heap_classes = {"Val": {}}
+    w.abstract_items = {"Val": "cell"}                     # item[x] on a record is cell(item, x)
+    w.abstract_iter = {"Val": "items_of"}                  # iterating a stored list of records
+    w.abstract_hasattr = {("Val", "keys"): "is_record"}    # hasattr(v, 'keys')
+    w.spec_func(cell, rec=dict(args=[VAL, "str"], ret="str", opaque=True))
+    w.spec_func(is_record, rec=dict(args=[VAL], ret="bool", opaque=True))
+    w.spec_func(items_of, rec=dict(args=[VAL], ret=("list", VAL), opaque=True))
+    w.spec_func(stored, rec=dict(args=["int", "str"], ret=VAL, opaque=True))
+    w.spec_func(has_field, rec=dict(args=["int", "str"], ret="bool", opaque=True))
+    w.spec_func(size_len)
+    w.spec_func(comp_plain if cls == "Dsc" else comp_sized, name="comp")
+    w.spec_env["single_exempt"] = VFunc("builtin", "single_exempt", fn=lambda ex, a, kw: VBool(cls == "PdiffIndex"))
+    w.spec_func(rec_line, rec=dict(args=[VAL, "list:str", "str", "str"], ret="str"))
+    w.spec_func(rec_lines, rec=dict(args=[("list", VAL), "list:str", "str", "str"], ret="str"))
+    w.spec_func(line_has_nl, rec=dict(args=[VAL, "list:str", "str", "str"], ret="bool"))
+    w.spec_func(any_has_nl, rec=dict(args=[("list", VAL), "list:str", "str", "str"], ret="bool"))
+    w.spec_func(records)
+    w.spec_func(mv_text)
+    w.spec_func(width_of)
+    w.spec_func(widths, rec=dict(args=[("list", VAL)], ret=("list", "int")))
+    w.add_contract(StoredAbs())
+    w.add_contract(ContainsAbs())
+    return w
+
+
+def run_deductive(ctx):
+    for cls in ("Dsc", "Release", "PdiffIndex"):
+        w = build_world_mv(cls)
+        cs = [MVGetAsString(cls)]
+        if cls != "Dsc":
+            size_len_c = SizeLenRelease() if cls == "Release" else SizeLenPdiff()
+            fixed = FixedLengths(cls)
+            w.add_contract(size_len_c)
+            w.add_contract(fixed)
+            cs = [size_len_c, fixed] + cs
+        verify_contracts(ctx, w, cs, {})
+    ctx.solve()
 
 
 def expected_field_text(display, order, records, width, single):
@@ -49,6 +316,7 @@ def run(ctx):
     from props import C02 as _c02
     _c02.verify_split_gpg(ctx, real)
     _c02.verify_internal_parser(ctx, real)
+    run_deductive(ctx)
     rng = random.Random(ctx.seed)
     configs = [("Dsc", real.Dsc, None), ("Changes", real.Changes, None), ("BuildInfo", real.BuildInfo, None),
                ("Release/apt-ftparchive", real.Release, "apt-ftparchive"), ("Release/dak", real.Release, "dak"),
@@ -116,9 +384,24 @@ def run(ctx):
         t.samples.append({"class": cname, "fields": subsets[-1]})
     t.done()
     ctx.level = "other"
-    ctx.explanation = ("PROVED for all lines (SMT on the real pattern objects): a record line, being a continuation line, is never taken "
-                       "for a PGP armor line or a paragraph separator by the patterns of split_gpg_and_payload; split_gpg_and_payload, from its real AST, returns exactly the lines (CR / LF stripped) as payload - nothing taken for armor, nothing cut off - for every sequence of lines none of which matches the armor pattern or the separator pattern in force (loop invariant over the line index; both parser settings). Everything else - "
-                       "record <-> line conversion, sub-field names, alignment, absent optional fields - BOUNDED (see module docstring).")
+    ctx.explanation = ("PROVED from the real ASTs, for all record lists, all class tables and all keys: _multivalued.get_as_string returns - "
+                       "with trailing newlines stripped - a leading newline unless the value is a single record, then per record, in "
+                       "order, ' ' + component for every sub-field in table order and a newline, each size component left-padded "
+                       "with blanks to the width the class's table gives (none for Dsc / Changes / BuildInfo), and raises ValueError "
+                       "when a component contains a newline (nested loop invariants over a recursive specification; every path "
+                       "through the loop bodies has a satisfiability probe). Release / PdiffIndex._fixed_field_lengths have an "
+                       "entry {'size': w} exactly for the structured fields that are present (PdiffIndex: and hold a list of "
+                       "records), and _get_size_field_length gives w == 16 for an apt-ftparchive style Release file and otherwise "
+                       "the maximum of the lengths of the size components (ValueError only for an empty record list or an illegal "
+                       "size_field_behavior). ALSO PROVED (SMT on the real pattern objects): a record line, being a continuation "
+                       "line, is never taken for a PGP armor line or a paragraph separator; split_gpg_and_payload returns exactly "
+                       "the lines as payload for input without armor lines; the field-collecting loop of _internal_parser. "
+                       "BOUNDED: the line -> record conversion of _multivalued.__init__, sub-field names, the composition "
+                       "dump -> parse, absent optional fields, isolation between objects (see module docstring).")
+    ctx.assumptions += ["components of a record are str (str(item[x]) is item[x]) and every record has all sub-fields of its table",
+                        "the paragraph is a case-insensitive mapping: self[key] and self[key.lower()] are the same stored value (C09)",
+                        "max() of a list and n * ' ' are uninterpreted functions with the stated facts (element of the list; length "
+                        "max(n, 0), no line terminator)"]
     ctx.assumptions += ["record lists are non-empty (an empty list formats to an empty value, which parses back as a single-line "
                         "empty mapping: outside 'any list of records')"]
 
